@@ -18,6 +18,15 @@ func coqOptStr(ok bool, s string) string {
 	return "(Some " + coqStr(s) + ")"
 }
 
+func vnamesSorted(m map[string]string) []string {
+	var out []string
+	for k := range m {
+		out = append(out, k)
+	}
+	sortStrings(out)
+	return out
+}
+
 func kindFact(tok string) (string, bool) {
 	c, err := jwt.Decode(tok)
 	if err != nil || c == nil {
@@ -137,6 +146,37 @@ func runC15(c *Ctx) {
 		w.add("(CRFormat "+coqOptStr(ok, k)+" "+coqStr(tok)+" "+coqStr(string(useed))+" "+coqOptStr(err == nil, string(out))+")", map[string]interface{}{"kind": kind, "token": tok})
 		distinct["decorate"+kind] = true
 		c.count("decorated")
+	}
+	// outputs must stay what they were after later calls (no shared buffers): decorate everything first, parse afterwards
+	type kept struct {
+		tok  string
+		text []byte
+		copy string
+	}
+	var keep []kept
+	for round := 0; round < 3; round++ {
+		for _, kind := range vnamesSorted(valid) {
+			tok := valid[kind]
+			d, err := jwt.DecorateJWT(tok)
+			if err == nil {
+				keep = append(keep, kept{tok, d, string(d)})
+			}
+			if kind == "user" {
+				useed, _ := kr.by["user"].kp.Seed()
+				if f, err := jwt.FormatUserConfig(tok, useed); err == nil {
+					keep = append(keep, kept{tok, f, string(f)})
+				}
+			}
+		}
+	}
+	for _, k := range keep {
+		c.sum.ImplChecks++
+		got, _ := jwt.ParseDecoratedJWT(k.text)
+		if string(k.text) != k.copy || got != k.tok {
+			c.violation("C15: a decorated token / credentials text returned earlier changed after later calls (it no longer parses back to its token)",
+				map[string]interface{}{"token": k.tok, "parsed": got, "text_changed": string(k.text) != k.copy})
+			break
+		}
 	}
 	// seeds of every role, with blanks; user-only parser
 	utok := valid["user"]
